@@ -121,12 +121,16 @@ class EOFBootstrapper(_BaseBootstrapper, EOF):
         # for a given mode with all the individual bootstrap members
         # NOTE: we use scores as they have typically a lower dimensionality than components
         model_scores = model.data["scores"]
+        # Pearson correlation: the means are not zero for models fitted without centering,
+        # and the product is Hermitian for complex models
+        bst_anomalies = bst_scores - bst_scores.mean(sample_name)
+        model_anomalies = model_scores - model_scores.mean(sample_name)
         corr = (
-            (bst_scores * model_scores).mean(sample_name)
+            (bst_anomalies * model_anomalies.conj()).mean(sample_name)
             / bst_scores.std(sample_name)
             / model_scores.std(sample_name)
         )
-        signs = np.sign(corr)
+        signs = np.sign(corr.real)
         bst_components = bst_components * signs
         bst_scores = bst_scores * signs
 
